@@ -30,7 +30,7 @@ class C19(Check):
         "naming the missing full name. Non-trivial = graph with >=3 types or a type used from >=2 places. Distinct by digest."
     )
     assumptions = ["graphs are acyclic (recursive types are not placed in separate files)", "either all types live in namespaces or all in the null namespace (a null-namespace type cannot be referred to from a namespaced file)"]
-    required_labels = ["types>=3", "shared-type", "namespaces>=2", "relative-ref", "qualified-ref", "missing-file", "ordered", "depth>=2", "explicit-repo"]
+    required_labels = ["types>=3", "shared-type", "namespaces>=2", "relative-ref", "qualified-ref", "missing-file", "ordered", "depth>=2", "explicit-repo", "repo-object-reused"]
     quick = (1500, 1)
     thorough = (3000, 16)
 
@@ -167,10 +167,19 @@ class C19(Check):
             # the same through an explicit repository object (schema_path is then the full name, dots included)
             from fastavro.repository import FlatDictRepository
             labels.add("explicit-repo")
-            loaded_r = guard("load_schema-with-repo", load_schema, top, repo=FlatDictRepository(td))
+            repo = FlatDictRepository(td)
+            loaded_r = guard("load_schema-with-repo", load_schema, top, repo=repo)
             got_r = guard("canonical-form", to_parsing_canonical_form, loaded_r)
             if got_r != want:
                 raise Violation("load_schema-with-repo-differs", f"load_schema({top!r}, repo=...) gives {got_r!r:.300}, inlined {want!r:.300}")
+            # the same repository object serves further loads: every other type as a root of its own, then the top again
+            for other in [n for n in reachable if n != top][:3] + [top]:
+                oir, _ = gen.linearize({"k": "ref", "name": other}, table)
+                lo = guard("load_schema-with-repo", load_schema, other, repo=repo)
+                go = guard("canonical-form", to_parsing_canonical_form, lo)
+                if go != canon.canonical(oir):
+                    raise Violation("load_schema-with-reused-repo-differs", f"second load through the same repository object: {other!r} gives {go!r:.300}, inlined {canon.canonical(oir)!r:.300}")
+                labels.add("repo-object-reused")
             # ordered loading, dependencies first
             order = self._dep_order(top, table)
             labels.add("ordered")
@@ -208,6 +217,9 @@ class C19(Check):
                 named = getattr(e, "name", None)
                 if named != missing and missing not in str(e):
                     raise Violation("missing-file-error-names-other-type", f"{missing}.avsc is missing; error is {type(e).__name__}({str(e)[:200]!r}) name={named!r}; files={list(files)}")
+                o = outcome(load_schema, top, repo=repo)
+                if o[0] == "ok":
+                    raise Violation("missing-file-not-reported:reused-repo", f"load_schema through the repository object used before succeeded although {missing}.avsc has been deleted")
         return labels
 
     def _enc(self, schema, datum):
